@@ -27,19 +27,32 @@ class VersionEval:
             return b["body"][0].get("e")
         return None
 
-    def ev(self, e, ver, depth=0):
+    def ev(self, e, ver, depth=0, binds=None):
         """value of e (int/bool) in version ver=(file,user,stream), or None if not a version-only expression"""
         if not is_node(e) or depth > 30:
             return None
         k = e["k"]
+        if binds and k == "Ref" and e.get("id") in binds:
+            return binds[e["id"]]
+        if k == "Call" and e.get("fid") in self.F.fns and e.get("cls") == NIV and e.get("smeth") and e.get("args"):
+            # small pure static helpers (NiVersion::ToFile): evaluate the single return expression with bound arguments
+            fn = self.F.fns[e["fid"]]
+            ret = self._single_return(fn)
+            vals = [self.ev(a, ver, depth + 1, binds) for a in e["args"]]
+            if ret is not None and all(v is not None for v in vals) and len(vals) == len(fn.get("params", [])):
+                b2 = {p["id"]: v for p, v in zip(fn["params"], vals)}
+                return self.ev(ret, ver, depth + 1, b2)
+            return None
+        if k in ("Construct",) and len(e.get("args", [])) == 1:
+            return self.ev(e["args"][0], ver, depth + 1, binds)
         if k == "Lit":
             return e.get("val")
         if "val" in e and k in ("Ref", "Sizeof", "Cast", "Member") and e.get("rk") != "local":
             return e["val"]
         if k == "Cast":
-            return self.ev(e["e"], ver, depth + 1)
+            return self.ev(e["e"], ver, depth + 1, binds)
         if k == "Member" and e.get("owner") == NIV:
-            return {"file": ver[0], "user": ver[1], "stream": ver[2]}.get(e["name"])
+            return {"file": ver[0], "user": ver[1], "stream": ver[2], "nds": 0}.get(e["name"])
         if k == "Call" and e.get("cls") == NIV:
             sh = e.get("short")
             if sh == "File":
@@ -48,11 +61,13 @@ class VersionEval:
                 return ver[1]
             if sh == "Stream":
                 return ver[2]
+            if sh == "NDS":
+                return 0  # alias table (DESIGN R1.3): Nintendo DS headers are outside the supported version space
             if sh in self.pred_bodies and not e.get("args"):
-                return self.ev(self.pred_bodies[sh], ver, depth + 1)
+                return self.ev(self.pred_bodies[sh], ver, depth + 1, binds)
             return None
         if k == "Unary":
-            v = self.ev(e["e"], ver, depth + 1)
+            v = self.ev(e["e"], ver, depth + 1, binds)
             if v is None:
                 return None
             if e["op"] == "!":
@@ -64,11 +79,11 @@ class VersionEval:
             return None
         if k == "Binary":
             op = e["op"]
-            a = self.ev(e["l"], ver, depth + 1)
+            a = self.ev(e["l"], ver, depth + 1, binds)
             if op == "&&":
                 if a is not None and not a:
                     return False
-                b = self.ev(e["r"], ver, depth + 1)
+                b = self.ev(e["r"], ver, depth + 1, binds)
                 if b is not None and not b:
                     return False
                 if a is None or b is None:
@@ -77,13 +92,13 @@ class VersionEval:
             if op == "||":
                 if a is not None and a:
                     return True
-                b = self.ev(e["r"], ver, depth + 1)
+                b = self.ev(e["r"], ver, depth + 1, binds)
                 if b is not None and b:
                     return True
                 if a is None or b is None:
                     return None
                 return False
-            b = self.ev(e["r"], ver, depth + 1)
+            b = self.ev(e["r"], ver, depth + 1, binds)
             if a is None or b is None:
                 return None
             if op in ("<<", ">>") and not (0 <= int(b) < 64):
@@ -97,10 +112,10 @@ class VersionEval:
             except Exception:
                 return None
         if k == "Cond":
-            c = self.ev(e["c"], ver, depth + 1)
+            c = self.ev(e["c"], ver, depth + 1, binds)
             if c is None:
                 return None
-            return self.ev(e["a"] if c else e["b"], ver, depth + 1)
+            return self.ev(e["a"] if c else e["b"], ver, depth + 1, binds)
         return None
 
     def is_version_expr(self, e):
